@@ -327,7 +327,8 @@ fn run_case(spec: &Spec, tape: &mut Tape, key_canon: u64, key_var: u64) -> Resul
     let shape = if beside { fnv1a(shape, b"+beside") } else { shape };
     // ... of the same outer shape as the variant (the same wrappers around the sibling)
     let bystander = if beside {
-        let sib = plan_canonical(&spec.sibling());
+        // a sibling of another size, or one of exactly the same shape with other values
+        let sib = plan_canonical(&if tape.choose(2) == 1 { spec.sibling_same_shape() } else { spec.sibling() });
         Some(match (wrap, sib) {
             (1, Plan::Packet(pp)) => Plan::Pb(pp),
             (2, p @ Plan::Packet(_)) => Plan::Compound(vec![p]),
